@@ -146,12 +146,12 @@ class MarkingDefinition(_STIXBase20, _MarkingsMixin):
             except KeyError:
                 raise ValueError("definition_type must be a valid marking type")
 
-            if 'created' in kwargs:
-                if _should_set_millisecond(kwargs['created'], marking_type):
-                    self._properties = copy.deepcopy(self._properties)
-                    self._properties.update([
-                        ('created', TimestampProperty(default=lambda: NOW, precision='millisecond')),
-                    ])
+            # Without 'created' the clock supplies one, with a sub-second part.
+            if 'created' not in kwargs or _should_set_millisecond(kwargs['created'], marking_type):
+                self._properties = copy.deepcopy(self._properties)
+                self._properties.update([
+                    ('created', TimestampProperty(default=lambda: NOW, precision='millisecond')),
+                ])
 
             if not isinstance(kwargs['definition'], marking_type):
                 defn = _get_dict(kwargs['definition'])
